@@ -14,9 +14,15 @@ import (
 	"testing"
 	"time"
 
+	ethcmn "github.com/ethereum/go-ethereum/common"
+	ethtypes "github.com/ethereum/go-ethereum/core/types"
 	abci "github.com/tendermint/tendermint/abci/types"
 	tmtypes "github.com/tendermint/tendermint/types"
 	"pgregory.net/rapid"
+
+	"github.com/Oneledger/protocol/action"
+	aolvm "github.com/Oneledger/protocol/action/olvm"
+	"github.com/Oneledger/protocol/serialize"
 
 	"verif/hist"
 	"verif/run"
@@ -356,6 +362,82 @@ func execute(h *run.H, tr *hist.Trace, draw func(w *hist.World, scoutR *sim.Repl
 	return nil, st
 }
 
+// withAccessList sets the access list member of an OLVM payload. The member is not covered by the
+// EIP-155 signature: Validate computes the intrinsic gas without it, the state transition with it.
+func withAccessList(tx txgen.Tx, al ethtypes.AccessList) txgen.Tx {
+	var stx action.SignedTx
+	if err := serialize.GetSerializer(serialize.NETWORK).Deserialize(tx.Bytes, &stx); err != nil {
+		return tx
+	}
+	var m aolvm.Transaction
+	if err := m.Unmarshal(stx.Data); err != nil {
+		return tx
+	}
+	m.AccessList = &al
+	data, err := m.Marshal()
+	if err != nil {
+		return tx
+	}
+	stx.Data = data
+	b, err := serialize.GetSerializer(serialize.NETWORK).Serialize(stx)
+	if err != nil {
+		return tx
+	}
+	tx.Bytes = b
+	return tx
+}
+
+// ---- exclusions owned by other properties, honoured by construction ---------------------------
+
+// validatorOf returns the validatorAddress member of a staking transaction's payload.
+func validatorOf(tx txgen.Tx) string {
+	var raw struct {
+		Data []byte `json:"data"`
+	}
+	if json.Unmarshal(tx.Bytes, &raw) != nil {
+		return ""
+	}
+	var m struct {
+		ValidatorAddress string
+	}
+	_ = json.Unmarshal(raw.Data, &m)
+	return m.ValidatorAddress
+}
+
+// applyExclusions replaces transactions that known findings of other properties exclude:
+// STAKE:zero-power-record (C11: a STAKE to a record of power 0 is lost when the block end deletes
+// the record; the validator later gets negative power and the fee distribution kills the process).
+func applyExclusions(h *run.H, g *hist.Gen, txs []txgen.Tx) []txgen.Tx {
+	var zero map[string]bool
+	for i, tx := range txs {
+		if tx.Kind != "STAKE" {
+			continue
+		}
+		if zero == nil {
+			zero = map[string]bool{}
+			for _, r := range g.W.ValRecs() {
+				if r.Power <= 0 {
+					zero[r.Address.String()] = true
+				}
+			}
+		}
+		if zero[validatorOf(tx)] && h.Excluded("STAKE:zero-power-record") {
+			txs[i] = g.Send()
+		}
+	}
+	return txs
+}
+
+// negativePower reports a committed validator record with negative power (the next fee distribution calls logger.Fatal).
+func negativePower(w *hist.World) bool {
+	for _, r := range w.ValRecs() {
+		if r.Power < 0 {
+			return true
+		}
+	}
+	return false
+}
+
 // ---- engineered failures ----------------------------------------------------------------------
 
 var oneE18 = new(big.Int).Exp(big.NewInt(10), big.NewInt(18), nil)
@@ -450,7 +532,7 @@ func (e *engineer) engineerInto(sc *sim.Replica, spec sim.BlockSpec, txs []txgen
 	n := 1 + e.u.N(2, "eng-n")
 	for j := 0; j < n; j++ {
 		at := e.u.N(len(txs)+1, "eng-at")
-		switch e.u.N(11, "eng-shape") {
+		switch e.u.N(12, "eng-shape") {
 		case 0, 1, 2, 3, 4: // Fee.Gas relative to the measured use: one below (fails in the fee step), exact (boundary, succeeds)
 			kind, mk := e.baseTx()
 			delta := []int64{-1, -1, -1, 0, -20}[e.u.N(5, "eng-delta")]
@@ -493,7 +575,7 @@ func (e *engineer) engineerInto(sc *sim.Replica, spec sim.BlockSpec, txs []txgen
 			t.Note = fmt.Sprintf("eng:%s:%s:used=%d", label, kind, used)
 			txs = insert(txs, at, t)
 			e.labels["eng:"+label]++
-		case 9: // OLVM: access list in the payload, Fee.Gas between the intrinsic gas without and with the list; a valid OLVM transfer after it
+		case 9, 10, 11: // OLVM: access list in the payload, Fee.Gas between the intrinsic gas without and with the list; a valid OLVM transfer after it
 			if w.P.Frankenstein == 0 || w.C.Height+1 < w.P.Frankenstein || len(w.G.U.Eth) < 2 {
 				continue
 			}
@@ -532,8 +614,6 @@ func (e *engineer) engineerInto(sc *sim.Replica, spec sim.BlockSpec, txs []txgen
 			e.fresh = append(e.fresh, f)
 			txs = insert(txs, at, t)
 			e.labels["eng:fund-fresh"]++
-		case 10: // same as 9 (weight)
-			fallthrough
 		default: // a fresh account spends balance - fee + delta: the payload is covered, the fee is short by delta
 			var f *fresh
 			for _, x := range e.fresh {
@@ -633,8 +713,11 @@ func TestC06(t *testing.T) {
 			if blocks >= nb {
 				return nil, false
 			}
+			if negativePower(w) && (h.Excluded("STAKE:zero-power-record") || h.Excluded("ALLEGATION_VOTE:accused-not-elected")) {
+				return nil, false // known findings of C11: the next fee distribution would kill the process
+			}
 			blocks++
-			txs := g.DrawTxs(5)
+			txs := applyExclusions(h, g, g.DrawTxs(5))
 			spec := g.DrawEnv(nil)
 			// the scout cannot run a speculative BeginBlock for the first block of a reward cycle (the
 			// calculator reads that block's own meta from the block store) nor for block 1
